@@ -5,6 +5,8 @@ rows = []
 for f in sorted(glob.glob(os.path.join(HERE, "seeded", "*", "meta.json"))):
     m = json.load(open(f))
     first = ", ".join(m.get("caught_by", [])) or "— (missed)"
+    if m.get("check_widened_from_needs_description_before_first_audit"):
+        first += " †"
     ran = ", ".join(sorted(set(k.split("/")[0] for k in m.get("checks_run", {}))))
     after = ", ".join(m.get("caught_by_after_strengthening", [])) if "caught_by_after_strengthening" in m else ""
     rows.append("| %s | %s | %s | %s | %s | %s |" % (m["id"], m["breaks_property"], m["needs_to_manifest"][:150], ran, first, after))
